@@ -1,7 +1,8 @@
 (* C16, page-store sub-check: the case type and the two boolean functions the check evaluates
    on every case (`ps_model_agrees` = MM, `ps_spec` = SM, `in_discipline` = scope).
-   COPIED UNCHANGED from the PS_HEADER string of tools/props/c16.py so that theorems can be stated
-   about them (Proofs/PStoreOracle.v, Properties/C16.v); the check should import them from here. *)
+   Originally the PS_HEADER string of tools/props/c16.py; the check imports them from here, the
+   theorems about them are in Proofs/PStoreOracle.v and Properties/C16.v. `href_ok` has been
+   tightened since (held pages, output kinds: see below). *)
 From Mkdb Require Import Model.CaseLib Spec.PStoreSpec.
 Open Scope N_scope.
 Definition pcase := (nat * list hop * list pout)%type.
@@ -18,31 +19,31 @@ Definition in_discipline (c : pcase) : bool :=
 Definition ps_model_agrees (c : pcase) : bool :=
   let '(cap, ops, obs) := c in
   negb (in_discipline c) || list_eqb pout_eqb (snd (hrun (ps_init cap) [] ops)) obs.
-(* the property on the observed behaviour: every fetch returns what the unbounded reference holds *)
-Fixpoint href_ok (m : amap) (ops : list hop) (obs : list pout) : bool :=
+(* the property on the observed behaviour: every fetch returns what the unbounded reference holds.
+   `held` = the pages the caller holds an object for (fetched or allocated before): an HModify of
+   another page changes nothing - the caller has no object to write through; the model (hrun) and
+   the Go driver skip it. Within the discipline every operation must be answered with the kind of
+   output the model produces: a fetch with an object whose content is the reference's (a refusal
+   inside the discipline is a violation, C16_fetch_sees_reference), an allocation with an object
+   holding the content given, a modification and a flush with nothing. *)
+Definition is_held (k : N) (held : list N) : bool := existsb (N.eqb k) held.
+Fixpoint href_ok (m : amap) (held : list N) (ops : list hop) (obs : list pout) : bool :=
   match ops, obs with
   | [], [] => true
   | op :: r, o :: ro =>
       match op, o with
       | HFetch k, PObj _ c => N.eqb c (ref_get k m)
-      | _, _ => true
+      | HAlloc _ c, PObj _ c' => N.eqb c' c
+      | HModify _ _, PUnit | HFlush _, PUnit => true
+      | _, _ => false
       end &&
-      href_ok (match op with HAlloc k c => aset k c m | HModify k c => aset k c m | _ => m end) r ro
+      href_ok (match op with
+               | HAlloc k c => aset k c m
+               | HModify k c => if is_held k held then aset k c m else m
+               | _ => m
+               end)
+              (match op with HFetch k | HAlloc k _ => k :: held | _ => held end) r ro
   | _, _ => false
   end.
 Definition ps_spec (c : pcase) : bool :=
-  let '(cap, ops, obs) := c in negb (in_discipline c) || href_ok [] ops obs.
-
-(* ---- NOT in c16.py: the hypothesis of C16_agreement_implies_acceptance, a syntactic condition on
-   the caller-level operation list: a page is modified only after it has been fetched or allocated
-   (the caller holds an object for it). `href_ok` applies every HModify to the reference, while the
-   model (hrun) and the Go driver skip an HModify of a page the caller holds no object for. ---- *)
-Fixpoint mods_follow_fetch (seen : list N) (ops : list hop) : bool :=
-  match ops with
-  | [] => true
-  | HFetch k :: r => mods_follow_fetch (k :: seen) r
-  | HAlloc k _ :: r => mods_follow_fetch (k :: seen) r
-  | HModify k _ :: r => existsb (N.eqb k) seen && mods_follow_fetch seen r
-  | HFlush _ :: r => mods_follow_fetch seen r
-  end.
-Definition mods_held (c : pcase) : bool := let '(_, ops, _) := c in mods_follow_fetch [] ops.
+  let '(cap, ops, obs) := c in negb (in_discipline c) || href_ok [] [] ops obs.
